@@ -170,16 +170,19 @@ def hasChanged (w : World) (t : Nat) (v : Nat) (st : Option Nat) : Bool :=
 inductive Scan | missing | changed | unchanged
 deriving Repr, DecidableEq
 
-/-- The loop of `execute.pytask_execute_task_setup` over `node_and_neighbors` (non-forced case):
-a missing predecessor raises, the first changed node breaks. -/
-def scan (P : Project) (g : G) (w : World) (t : Nat) : List Nat → Scan
-  | [] => .unchanged
+/-- The loop of `execute.pytask_execute_task_setup` over `node_and_neighbors`. `needs` starts as
+`force`; a missing predecessor (dependency, or the task's own source) always raises; once the task
+is known to run, only the remaining predecessors are still checked for existence. -/
+def scan (P : Project) (g : G) (w : World) (t : Nat) (needs : Bool) : List Nat → Scan
+  | [] => if needs then .changed else .unchanged
   | v :: vs =>
-    let st := stateOf P w v
     let isPredOrSelf := (g.preds (tv t)).contains v || v == tv t
-    if isPredOrSelf && st.isNone then .missing
-    else if hasChanged w t v st then .changed
-    else scan P g w t vs
+    if needs && !isPredOrSelf then .changed
+    else
+      let st := stateOf P w v
+      if isPredOrSelf && st.isNone then .missing
+      else if needs then scan P g w t true vs
+      else scan P g w t (hasChanged w t v st) vs
 
 /-- `update_states_in_database`: one row per neighbour; a missing node has state `None`, the
 NOT NULL column then raises `IntegrityError` (→ `none`). Rows before the failing one are committed. -/
@@ -226,8 +229,7 @@ def setupImpl (P : Project) (g : G) (cfg : Cfg) (s : Sess) (t : TaskSpec) (name 
     else .none
   else if name == "execute" then
     if s.wbeMarks.contains t.id then .wouldBeExecuted
-    else if cfg.force then .none
-    else match scan P g s.w t.id (neighbours g t.id) with
+    else match scan P g s.w t.id cfg.force (neighbours g t.id) with
       | .missing => .error
       | .changed => .none
       | .unchanged => .skippedUnchanged
